@@ -27,7 +27,7 @@ class ObResult:
 
 def solve(hyps, goal, axioms=(), timeout_ms=10000, want_model=True):
     """returns (status, backend, secs, model_text, model).  status: proved | refuted | unknown"""
-    from .exec import has_quant
+    from .values import has_quant
     from .inst import pointwise_check
     t0 = time.time()
     hyps = list(hyps)
@@ -201,7 +201,7 @@ def verify_function(ex, key, timeout_ms=10000, extra_pre=()):
             rep.paths += 1
             res = normalize(out.val, ret_ty)
             for c in spec.post:
-                goal = c.fn(a, res) if c.fn.__code__.co_argcount == 2 else c.fn(a, res, out.st.reports)
+                goal = c.fn(a, res, reports=out.st.reports) if "reports" in c.fn.__code__.co_varnames[:c.fn.__code__.co_argcount] else c.fn(a, res)
                 if isinstance(goal, bool) and goal:
                     rep.results.append(ObResult(f"{key}.{c.name}.path{i}", "ensures", "proved", "trivial", 0.0, c.props))
                     continue
